@@ -140,6 +140,37 @@ def ddmin(ops, test, max_tests=400):
     return ops
 
 
+def rewire_pass(ops, fires, max_tests=150):
+    """
+    Drop an op that derives handle `out` from handle `t` and let the later ops
+    use `t` instead (ddmin alone cannot remove the middle of a derivation chain).
+    """
+    tests = 0
+    i = 0
+    while i < len(ops) and tests < max_tests:
+        op = ops[i]
+        if isinstance(op, dict) and op.get("out") is not None and op.get("t") is not None:
+            out, t = op["out"], op["t"]
+            cand = []
+            for j, o in enumerate(ops):
+                if j == i:
+                    continue
+                o = dict(o)
+                if j > i:
+                    for key in ("t", "other"):
+                        if o.get(key) == out:
+                            o[key] = t
+                    if "others" in o:
+                        o["others"] = [t if x == out else x for x in o["others"]]
+                cand.append(o)
+            tests += 1
+            if fires(cand):
+                ops = cand
+                continue
+        i += 1
+    return ops
+
+
 # ---------------------------------------------------------------------------
 # Fan-out
 
@@ -291,6 +322,9 @@ def minimise(engine, prop, trace, violation):
     if not fires(ops):
         return trace, False
     ops = ddmin(ops, fires, max_tests=getattr(engine, "DDMIN_MAX_TESTS", 400))
+    if getattr(engine, "REWIRE", False):
+        ops = rewire_pass(ops, fires)
+        ops = ddmin(ops, fires, max_tests=100)
     if hasattr(engine, "simplify_ops"):
         ops = engine.simplify_ops(ops, fires)
     t = dict(trace)
@@ -410,9 +444,10 @@ def run_check(prop, engine_name, tier, nruns, extra_evidence=None):
         ev["coverage"].update(extra_evidence)
     if hasattr(engine, "extra_coverage"):
         ev["coverage"].update(engine.extra_coverage(results, prop))
-    os.makedirs(EVIDENCE_DIR, exist_ok=True)
-    with open(os.path.join(EVIDENCE_DIR, f"{prop}.json"), "w", encoding="utf-8") as f:
-        json.dump(ev, f, indent=1, sort_keys=True, default=_canon_default)
+    if not os.environ.get("VERIF_NO_EVIDENCE"):     # sensitivity experiments on scratch trees
+        os.makedirs(EVIDENCE_DIR, exist_ok=True)
+        with open(os.path.join(EVIDENCE_DIR, f"{prop}.json"), "w", encoding="utf-8") as f:
+            json.dump(ev, f, indent=1, sort_keys=True, default=_canon_default)
     nres = len([r for r in results if not r.get("harness_error")])
     print(f"[dsim] {prop}: runs={nres} steps={ev['coverage']['steps']} "
           f"distinct_nontrivial={ev['coverage']['distinct_nontrivial']} "
